@@ -1,10 +1,27 @@
 //! One module per property.
 use crate::engine::Property;
 
+pub mod c01;
+pub mod c02;
+pub mod c03;
+pub mod c08;
+pub mod c09;
+pub mod c14;
+pub mod c15;
 pub mod c16;
+pub mod simcase;
 
 pub fn all() -> Vec<Box<dyn Property>> {
-    vec![Box::new(c16::C16)]
+    vec![
+        Box::new(c01::C01),
+        Box::new(c02::C02),
+        Box::new(c03::C03),
+        Box::new(c08::C08),
+        Box::new(c09::C09),
+        Box::new(c14::C14),
+        Box::new(c15::C15),
+        Box::new(c16::C16),
+    ]
 }
 
 pub fn by_id(id: &str) -> Option<Box<dyn Property>> {
